@@ -209,7 +209,7 @@ func Harness_C03_handshakes() {
 			}
 		case 2: // phase 2 for some client id with some response
 			id := ids[verif_Choose(4)]
-			kind := verif_Choose(4)
+			kind := verif_Choose(5)
 			var response string
 			valid := false
 			switch kind {
@@ -233,6 +233,14 @@ func Harness_C03_handshakes() {
 					other = 1002
 				}
 				response = w.mgr.ComputeResponse(c03Secrets[other], c.chal)
+			case 3: // a proper prefix of the correct response (even length, as hex text has)
+				if c.chal == "" {
+					continue
+				}
+				full := w.mgr.ComputeResponse(c03Secrets[id], c.chal)
+				verif_Assume(len(full) >= 4)
+				response = full[:2*verif_IntRange(1, len(full)/2-1)]
+				verif_Cover("C03.truncated_response_sent")
 			default: // arbitrary bytes
 				response = string(verif_Bytes(3))
 			}
